@@ -15,7 +15,17 @@ CONTEXTS = [
     ("colon_before", "{} : B = 2", []),
     ("for_body", "FOR I = 1 TO 2 : {}", ["NEXT I"]),
     ("twice", "{} : {}", []),
+    # the statement directly follows a remark / a line whose last statement is a remark / an IF whose branch is a remark
+    ("after_rem", "{}", [], ["REM X"]),
+    ("after_tick", "{}", [], ["B = 2 ' X"]),
+    ("after_then_rem", "{}", [], ["IF A = 1 THEN REM X"]),
+    ("after_data", "{}", [], ["DATA 1"]),
+    ("after_next", "{}", [], ["FOR I = 1 TO 2 : NEXT I"]),
 ]
+
+
+def ctx_parts(c):
+    return c[0], c[1], c[2], (c[3] if len(c) > 3 else [])
 
 KEY_NUM = ["var", "conv", "conv_in_builtin", "dev", "conv_elem"]
 KEY_STR = ["var", "conv", "conv_in_builtin", "inkey"]
@@ -40,10 +50,8 @@ def template_combos(body, full=True):
 def catalogue_in_contexts(run):
     for d in core.cube(run, [("ctx", CONTEXTS), ("stmt", K.CATALOGUE)]):
         name, stmt, alt = d["stmt"]
-        cname, ctpl, after = d["ctx"]
-        if stmt.startswith(("DATA", "REM", "'")) and ctpl.count("{}") > 1:
-            pass
-        yield K.program_for([ctpl.replace("{}", stmt)] + after), f"ctx:{cname}:{name}"
+        cname, ctpl, after, before = ctx_parts(d["ctx"])
+        yield K.program_for(before + [ctpl.replace("{}", stmt)] + after), f"ctx:{cname}:{name}"
 
 
 def templates_plain(run):
@@ -73,8 +81,9 @@ def templates_in_contexts(run):
         for kn in KEY_NUM:
             for ks in (KEY_STR if "s" in sl else ["var"]):
                 filled = K.fill(body, [num[kn] if x == "n" else strs[ks] for x in sl])
-                for cname, ctpl, cafter in CONTEXTS[1:]:
-                    text = K.template_program(ctpl.replace("{}", filled), cafter)
+                for c in CONTEXTS[1:]:
+                    cname, ctpl, cafter, cbefore = ctx_parts(c)
+                    text = K.template_program(ctpl.replace("{}", filled), cafter, before=cbefore)
                     if text in seen:
                         continue
                     seen.add(text)
@@ -87,3 +96,58 @@ def all_programs(run):
     yield from catalogue_in_contexts(run)
     yield from templates_plain(run)
     yield from templates_in_contexts(run)
+
+
+# ------------------------------------------------------------------ FOR/NEXT structures
+LOOP_VARS = ["I", "J", "K"]
+
+
+def balanced_for_structures(maxlen, maxdepth=3):
+    """Every lexically balanced FOR/NEXT skeleton with at most `maxlen` statements and nesting `maxdepth`:
+    statements are FOR <v>, a marker PRINT, or a NEXT in any spelling that closes the innermost 1..n open loops
+    (bare, with the variable, or a variable list inner-first).  Yields lists of statements."""
+    out = []
+
+    def rec(seq, stack, marks):
+        if not stack and seq:
+            out.append(list(seq))
+        if len(seq) >= maxlen:
+            return
+        # room check: every open loop still needs at least one statement... (lists can close several at once)
+        if len(stack) < maxdepth:
+            for v in LOOP_VARS:
+                if v not in stack:
+                    rec(seq + [f"FOR {v} = 1 TO 2"], stack + [v], marks)
+                    break  # variables are interchangeable: take the first unused one (canonical order) ...
+            # ... except that order matters for the NEXT patcher, so also open the *last* unused variable
+            unused = [v for v in LOOP_VARS if v not in stack]
+            if len(unused) > 1:
+                rec(seq + [f"FOR {unused[-1]} = 1 TO 2"], stack + [unused[-1]], marks)
+        if marks < 2:
+            rec(seq + [f'PRINT "{marks}"'], stack, marks + 1)
+        if stack:
+            rec(seq + ["NEXT"], stack[:-1], marks)
+            for n in range(1, len(stack) + 1):
+                closing = list(reversed(stack[-n:]))
+                rec(seq + ["NEXT " + " , ".join(closing)], stack[:-n], marks)
+
+    rec([], [], 0)
+    return out
+
+
+STRUCT_ALPHABET = ["FOR I = 1 TO 2", "FOR J = 1 TO 2", "NEXT", "NEXT I", "NEXT J", "NEXT I , J", "NEXT J , I", "NEXT J , I , K", 'PRINT "M"', "IF A = 1 THEN NEXT", "IF A = 1 THEN FOR K = 1 TO 2",
+                   "GOSUB 100", "RETURN", "IF A = 1 THEN RETURN ELSE NEXT I"]
+
+
+def any_structures(maxlen):
+    """Every sequence of at most `maxlen` statements over STRUCT_ALPHABET (balanced or not)."""
+    import itertools
+    for ln in range(1, maxlen + 1):
+        yield from (list(s) for s in itertools.product(STRUCT_ALPHABET, repeat=ln))
+
+
+def layouts_of(stmts):
+    """one statement per line / all on one line (IF-bearing statements end their line)"""
+    yield K.program_for(stmts), "lines"
+    if len(stmts) > 1 and not any(s.startswith("IF") for s in stmts[:-1]):
+        yield K.program_for([" : ".join(stmts)]), "oneline"
